@@ -206,7 +206,8 @@ def time_respecting_paths(G, u, v=None, start=None, end=None, sample=1):
                         continue
                     s = l
 
-            if flag:
+            # a source occurrence that is also a target yields the hop-less path [source]: not a path
+            if flag and len(pt) > 0:
                 paths.append(pt)
 
     pa = list(dict.fromkeys([tuple(x) for x in paths]))
